@@ -121,6 +121,8 @@ RoundTrip(r) ==
 
 ReadOnly(r) ==
     LET v == IF r.ev = "Lookup" THEN ReadOK(st, r)
+             ELSE IF r.ev = "FindData"
+                  THEN [ok |-> FindDataOK(st, r), expected |-> [finddata |-> TRUE, items |-> SetToSeq(FindDataExpected(st, r.a))]]
              ELSE IF r.ev = "Load"
                   THEN \* C19: a store that satisfies the store invariants, or an error: never a panic, abort, allocation failure or hang
                        LET okOut == r.outcome \in {"ok", "err"}
